@@ -1,19 +1,37 @@
 // Package nolog is a logger that discards everything (the repository's "silent" logger still prints
-// error-level entries with stack traces).
+// error-level entries with stack traces). With VERIF_LOG set it prints to stderr (replaying one case).
 package nolog
 
-import "github.com/LiskHQ/lisk-engine/pkg/log"
+import (
+	"fmt"
+	"os"
+
+	"github.com/LiskHQ/lisk-engine/pkg/log"
+)
+
+var Verbose = os.Getenv("VERIF_LOG") != ""
 
 type L struct{}
 
-func (L) Debug(msg string, others ...interface{})    {}
-func (L) Info(msg string, others ...interface{})     {}
-func (L) Error(msg string, others ...interface{})    {}
-func (L) Debugf(msg string, others ...interface{})   {}
-func (L) Infof(msg string, others ...interface{})    {}
-func (L) Errorf(msg string, others ...interface{})   {}
-func (L) Warning(msg string, others ...interface{})  {}
-func (L) Warningf(msg string, others ...interface{}) {}
+func p(level, msg string, others ...interface{}) {
+	if Verbose {
+		fmt.Fprintln(os.Stderr, append([]interface{}{"[" + level + "]", msg}, others...)...)
+	}
+}
+func pf(level, msg string, others ...interface{}) {
+	if Verbose {
+		fmt.Fprintf(os.Stderr, "["+level+"] "+msg+"\n", others...)
+	}
+}
+
+func (L) Debug(msg string, others ...interface{})    { p("debug", msg, others...) }
+func (L) Info(msg string, others ...interface{})     { p("info", msg, others...) }
+func (L) Error(msg string, others ...interface{})    { p("error", msg, others...) }
+func (L) Debugf(msg string, others ...interface{})   { pf("debug", msg, others...) }
+func (L) Infof(msg string, others ...interface{})    { pf("info", msg, others...) }
+func (L) Errorf(msg string, others ...interface{})   { pf("error", msg, others...) }
+func (L) Warning(msg string, others ...interface{})  { p("warn", msg, others...) }
+func (L) Warningf(msg string, others ...interface{}) { pf("warn", msg, others...) }
 func (L) With(kv ...interface{}) log.Logger          { return L{} }
 
 var _ log.Logger = L{}
